@@ -70,6 +70,10 @@ CHECKS = {
    "implementation-shaped TLA+ model of context.Pool (watcher pcs, read/write lock hand-over, closed, members vs maybe-members) checked exhaustively by TLC for NeverEarly and eventual cancellation; real Pool driven by a gated scheduler over the watcher's decision points and the entries of Add/Cancel, observed at every quiescent point, traces judged by TLC against the PoolContract monitor",
    "all interleavings of 2-3 initial contexts (any subset pre-cancelled) x 2-3 Adds x member ends x Cancel on the model (98k states thorough config); ~1.5k (quick) to ~50k (thorough) controlled schedules of staged and random programs on the real code incl. Add racing the end of the last member and Cancel, never-ending contexts, empty pools",
    "trusted: TLC; quiescence detection by goroutine wait states; an Add that overlaps the end of the last live member or Cancel is 'maybe a member' (the statement's own definition leaves it open)", "DESIGN.md#c20"),
+ "C05": ("model_checking",
+   "implementation-shaped TLA+ model of the cron run loop (CronSched: sorted entries, one timer, select over timer/add/snapshot/stop/remove, rendezvous channels, job WaitGroup, FakeClock timer semantics) checked exhaustively by TLC against the CronContract monitor incl. liveness; the real Cron (fake clock, harness schedules that record every Next argument and its zone, real specs under WithLocation) driven by the gated scheduler in sequential and racing histories plus ungated Stop-vs-wake rounds; every trace judged by TLC against the contract",
+   "159k (quick) to 8.5M (thorough) model states; 706 (quick) to 11.5k (thorough) histories: every activation the clock reaches starts its job once, never early/twice, none lost after Add/Remove of other entries, nothing after Remove/Stop returned, Stop's context only after started jobs returned, Entries' next/prev are the instants actually used, Schedule.Next always handed the wake time in the cron's location",
+   "trusted: TLC, k8s FakeClock (a timer armed with a non-positive duration needs a Step(0) nudge), quiescence by goroutine wait states; time in ticks of 30 min so that half-hour location offsets are whole ticks; Run() (blocking Start) not exercised", "DESIGN.md#c05"),
 }
 
 def hook_commits():
